@@ -103,6 +103,21 @@ def walk_deep(node: ast.AST) -> typing.Iterator[ast.AST]:
         stack.extend(list(ast.iter_child_nodes(cur))[::-1])
 
 
+def clone(node):
+    """Deep copy of a subtree (or list of subtrees) that does not follow the parent link of its root out of the subtree (a
+    plain ``copy.deepcopy`` of a node with parent links copies the whole module, and the copy keeps a link to that copy)."""
+    import copy
+
+    if isinstance(node, list):
+        return [clone(x) for x in node]
+    memo = {}
+    par = getattr(node, '_parent', None)
+    if par is not None:
+        memo[id(par)] = None
+    out = copy.deepcopy(node, memo)
+    return out
+
+
 def set_parents(tree: ast.AST) -> None:
     for parent in ast.walk(tree):
         for child in ast.iter_child_nodes(parent):
@@ -157,7 +172,7 @@ def inline_temporaries(fn_node: ast.AST, rounds: int = 4, only: typing.Optional[
     removed.  Used so that "introduce a temporary" refactorings do not change what a rule sees; line numbers survive."""
     import copy
 
-    node = copy.deepcopy(fn_node)
+    node = clone(fn_node)
     for _ in range(rounds):
         params = {a.arg for a in list(node.args.posonlyargs) + list(node.args.args) + list(node.args.kwonlyargs)}
         if node.args.vararg:
@@ -203,7 +218,7 @@ def inline_temporaries(fn_node: ast.AST, rounds: int = 4, only: typing.Optional[
         class Sub(ast.NodeTransformer):
             def visit_Name(self, n):  # noqa: N802
                 if isinstance(n.ctx, ast.Load) and n.id in cands:
-                    return copy.deepcopy(cands[n.id].value)
+                    return clone(cands[n.id].value)
                 return n
 
             def generic_visit(self, n):
@@ -490,7 +505,7 @@ def inline_helpers(tree: ast.AST, defs: dict, select: typing.Callable[[str, ast.
                         binding[p_] = defaults[p_]
                     else:
                         return None
-            stmts = copy.deepcopy(body)
+            stmts = clone(body)
             caller_names = set()
             if caller is not None:
                 caller_names = {x.id for x in ast.walk(caller) if isinstance(x, ast.Name) and id(x) not in inside} | _fn_params(caller)
@@ -515,12 +530,12 @@ def inline_helpers(tree: ast.AST, defs: dict, select: typing.Callable[[str, ast.
                 if _simple_expr(a) and p_ not in helper_locals and not (isinstance(a, ast.Name) and a.id in helper_locals):
                     subst[q_] = a
                 else:
-                    prelude.append(ast.Assign(targets=[ast.Name(id=q_, ctx=ast.Store())], value=copy.deepcopy(a), lineno=call.lineno, col_offset=0))
+                    prelude.append(ast.Assign(targets=[ast.Name(id=q_, ctx=ast.Store())], value=clone(a), lineno=call.lineno, col_offset=0))
 
             class Sub(ast.NodeTransformer):
                 def visit_Name(self, n):  # noqa: N802
                     if isinstance(n.ctx, ast.Load) and n.id in subst:
-                        return copy.deepcopy(subst[n.id])
+                        return clone(subst[n.id])
                     return n
 
             stmts = [Sub().visit(st) for st in stmts]
@@ -1073,7 +1088,8 @@ class Program:
     # ---- statistics / digests
     def stats(self) -> dict:
         nfunc = sum(1 for m in self.modules.values() for n in m.defs.values() if isinstance(n, FUNC))
-        return {'modules_parsed': len(self.modules), 'classes': len(self.classes), 'functions': nfunc}
+        equivalent = sorted(f'{m.name}:{q}' for m in self.modules.values() for q in m.equivalent)
+        return {'modules_parsed': len(self.modules), 'classes': len(self.classes), 'functions': nfunc, 'equivalent_functions': equivalent}
 
     def digest(self, modules: typing.Optional[typing.Iterable[str]] = None) -> str:
         h = hashlib.sha256()
